@@ -377,6 +377,11 @@ wrapint wrapint::operator^(wrapint x) const {
 wrapint wrapint::operator<<(wrapint x) const {
   sanity_check_bitwidths(x);
 
+  if (x._n >= _width) {
+    // all the bits are shifted out (and a C++ shift by 64 or more
+    // bits is undefined)
+    return wrapint(0, _width, _mod);
+  }
   uint64_t r = (_width == 64 ? (_n << x._n) : (_n << x._n) % _mod);
   return wrapint(r, _width, _mod);
 }
@@ -384,12 +389,25 @@ wrapint wrapint::operator<<(wrapint x) const {
 // logical right shift: blanks filled by 0's
 wrapint wrapint::lshr(wrapint x) const {
   sanity_check_bitwidths(x);
+  if (x._n >= _width) {
+    return wrapint(0, _width, _mod);
+  }
   return wrapint(_n >> x._n, _width, _mod);
 }
 
 // arithmetic right shift
 wrapint wrapint::ashr(wrapint x) const {
   sanity_check_bitwidths(x);
+  if (x._n == 0) {
+    // (the mask below would be shifted by _width bits)
+    return *this;
+  }
+  if (x._n >= _width) {
+    // only copies of the sign bit remain
+    uint64_t ones =
+        (_width < 64 ? ((uint64_t)1 << (uint64_t)_width) - 1 : UINT64_MAX);
+    return wrapint(msb() ? ones : 0, _width, _mod);
+  }
   if (!msb()) {
     return wrapint(_n >> x._n, _width, _mod);
   } else {
